@@ -99,7 +99,10 @@ def parseStep (s : String) : Option Step :=
     | _, _ => none
   | _ => none
 
-def parseScriptAction (s : String) : Option Action :=
+def parseScriptAction (s0 : String) : Option Action :=
+  -- `^<compute units>` only influences Transaction.Units (an input of the model)
+  let s := (splitC s0 "^").headD s0
+  if (splitC s0 "^").length > 2 || ((splitC s0 "^").length == 2 && ((splitC s0 "^").getD 1 "").toNat?.isNone) then none else
   let (body, range) : String × Option (Int × Int) :=
     match splitC s "@" with
     | [b] => (b, some (-1, -1))
@@ -121,6 +124,11 @@ structure St where
   univ : List Key := []
   blk : Block := { parent := fun _ => none }
   live : Bool := false
+  /-- the transactions of the current sequence (scope, tx, committed one by one?) -/
+  txs : List ((Key → Nat) × Tx × Bool) := []
+  prices : Option (List Nat) := none
+  now : Int := 0
+  mixed : Bool := false
 
 /-- the block diff (`TState.ChangedKeys`) over the universe: `k=v`, `k=~` for a delete -/
 def diffString (univ : List Key) (b : Block) : String :=
@@ -135,5 +143,41 @@ def reset (hs us is : String) : Option St :=
   match parseHandler hs, parseKeys us, parseKV is with
   | some h, some u, some kv => some { h, univ := u, blk := { parent := storeOf kv }, live := true }
   | _, _, _ => none
+
+def defaultMaxUnits : List Nat := [1800000, 2000, 2000, 2000, 2000]
+def zeroUnits : List Nat := [0, 0, 0, 0, 0]
+
+/-- remember a processed transaction of the current sequence -/
+def St.push (s : St) (prices : List Nat) (now : Int) (sc : Key → Nat) (tx : Tx) (done : Bool) : St :=
+  let mixed := s.mixed || (match s.prices with | some p => p != prices || s.now != now | none => false)
+  { s with txs := s.txs ++ [(sc, tx, done)], prices := some prices, now, mixed }
+
+/-- same predicate as `C03Tx.plainTiming` in the Go harness -/
+def plainTiming (now : Int) (tx : Tx) : Bool :=
+  let off := tx.timestamp - now
+  !(off < 5000 || off > 60000 - 5000 || off % 1000 != 0) && tx.authStart < 0 && tx.authStop < 0
+    && tx.actions.all fun a => a.start < 0 && a.stop < 0
+
+/-- the `block` op: the sequence as one block through the processor and the builder model -/
+def blockString (rules : Rules) (s : St) : String :=
+  if s.mixed then "mixed" else
+  let prices := s.prices.getD zeroUnits
+  let all := s.txs.map fun x => (x.1, x.2.1)
+  let oks := (s.txs.filter fun x => x.2.2).map fun x => (x.1, x.2.1)
+  let start : Block × List Nat := ({ parent := s.blk.parent }, zeroUnits)
+  let proc := match processorBlock rules s.h prices s.now defaultMaxUnits oks start with
+    | .ok (st, rs) => s!"ok n={rs.length} state={stateString s.univ st.1.visible}"
+    | .error e => "err:" ++ e.name
+  let procall := match processorBlock rules s.h prices s.now defaultMaxUnits all start with
+    | .ok _ => "ok"
+    | .error _ => "err"
+  let build :=
+    if !(all.all fun x => plainTiming s.now x.2) then "na" else
+    match builderBlock rules s.h prices s.now defaultMaxUnits all start with
+    | .error e => "abort:" ++ e.name
+    | .ok (_, incs) =>
+      if incs.isEmpty then "ok inc=none"
+      else "ok inc=" ++ ",".intercalate (incs.map fun o => if o.isSome then "1" else "0")
+  s!"proc={proc} procall={procall} build={build}"
 
 end Driver.TxCommon
